@@ -302,18 +302,41 @@ def normCenti (c : LocalCfg) (centi : Int) : Int :=
 def adaptive (avail req : Int) : Int :=
   if avail < 1 ∨ avail < -req then -req else avail
 
+/-- memory request before the cap: default for 0, adaptive for negative -/
+def reqMem0 (c : LocalCfg) (memCur m : Int) : Int :=
+  if m = 0 then c.memGBPerJob * 1024
+  else if m < 0 then adaptive memCur m else m
+
+/-- `if x > cap { x = cap }` -/
+def capTo (cap x : Int) : Int := if x > cap then cap else x
+
+/-- vmem default: `if vmemMb == 0 { vmemMb = memMb + ExtraVmemGB*1024 }` (uncapped memMb) -/
+def reqV0 (c : LocalCfg) (mem0 v : Int) : Int :=
+  if v = 0 then mem0 + c.extraVmemGB * 1024 else v
+
+/-- adaptive vmem, only when there is a vmem semaphore -/
+def reqV1 (c : LocalCfg) (vmemCur v0 : Int) : Int :=
+  if v0 < 0 then (if c.maxVmemMB > 0 then adaptive vmemCur v0 else v0) else v0
+
+/-- `if self.maxVmemMB > 0 && vmemMb > self.maxVmemMB { vmemMb = self.maxVmemMB }` -/
+def reqV2 (c : LocalCfg) (v1 : Int) : Int :=
+  if c.maxVmemMB > 0 ∧ v1 > c.maxVmemMB then c.maxVmemMB else v1
+
+/-- `if vmemMb > 0 && vmemMb < memMb { vmemMb = memMb }` -/
+def reqV3 (mem v2 : Int) : Int :=
+  if v2 > 0 ∧ v2 < mem then mem else v2
+
 /-- `GetSystemReqs` on integers. `memCur`/`vmemCur` = `CurrentSize()` of the
 memory / vmem semaphores at the time of the call. -/
 def normalize (c : LocalCfg) (memCur vmemCur : Int) (r : Req) : Req :=
-  let centi := normCenti c r.centi
-  let mem0 := if r.memMb = 0 then c.memGBPerJob * 1024
-              else if r.memMb < 0 then adaptive memCur r.memMb else r.memMb
-  let v0 := if r.vmemMb = 0 then mem0 + c.extraVmemGB * 1024 else r.vmemMb
-  let v1 := if v0 < 0 then (if c.maxVmemMB > 0 then adaptive vmemCur v0 else v0) else v0
-  let mem := if mem0 > c.maxMemGB * 1024 then c.maxMemGB * 1024 else mem0
-  let v2 := if c.maxVmemMB > 0 ∧ v1 > c.maxVmemMB then c.maxVmemMB else v1
-  let v3 := if v2 > 0 ∧ v2 < mem then mem else v2
-  ⟨centi, mem, v3⟩
+  let mem0 := reqMem0 c memCur r.memMb
+  let mem := capTo (c.maxMemGB * 1024) mem0
+  ⟨normCenti c r.centi, mem,
+   reqV3 mem (reqV2 c (reqV1 c vmemCur (reqV0 c mem0 r.vmemMb)))⟩
+
+/-- a configuration with positive limits and defaults -/
+def Sane (c : LocalCfg) : Prop :=
+  1 ≤ c.maxCores ∧ 1 ≤ c.maxMemGB ∧ 1 ≤ c.threadsPerJob ∧ 1 ≤ c.memGBPerJob ∧ 0 ≤ c.extraVmemGB
 
 /-- Amounts `Enqueue` passes to `Acquire`, in acquisition order
 cores → mem → vmem → procs, from the normalised request: `ceil(Threads*100)`,
